@@ -592,22 +592,22 @@ PROPS["C11"] = dict(
           "upper case for White (the contract the extracted writer is compiled against)", functions=["<PieceIndex as Display>::fmt"], timeout=1500),
         K("c11w", "c11_mailbox_of_board_contract", desc="ArrayMap::<Square, PieceIndex>::from(&Board) (the mailbox view the writer starts from): at every square the piece "
           "standing there; fully symbolic position and square", functions=["<ArrayMap<Square, PieceIndex> as From<&Board>>::from", "Board::piece_at"], timeout=2400, heavy=True,
-          tier="experimental", unwindset_rules=[("piece_at", r"for piece in Piece::ALL", 8), ("piece_at", r"for color in Color::ALL", 3),
+          unwindset_rules=[("piece_at", r"for piece in Piece::ALL", 8), ("piece_at", r"for color in Color::ALL", 3),
                                                  ("From<&board::Board>", r"for square in Square::ALL", 65),
                                                  ("Board::new", r"for \w+ in Piece::ALL", 8), ("Board::new", r"for \w+ in Color::ALL", 3)]),
         K("c11w", "c11_writer_fields_contract", desc="the FEN WRITER (whole body extracted verbatim, write! bound to a byte sink): for both sides, all 16 castling "
           "sets, every en-passant target or none and both clocks (std's decimal text kept abstract) the written line is the canonical line byte for byte "
           "(placement: two kings)",
-          functions=["<Fen as IntoNotation<State>>::into_notation (body, extracted)"], timeout=3000, heavy=True, unwindset_rules=WRITER_LOOPS, tier="experimental"),
+          functions=["<Fen as IntoNotation<State>>::into_notation (body, extracted)"], timeout=3000, heavy=True, unwindset_rules=WRITER_LOOPS),
     ] + [
         K("c11w", "c11_writer_placement_rank_%d" % r, kind="bounded", bound="rank %d fully symbolic (13^8 contents), the other seven ranks empty" % r,
           desc="the FEN WRITER's placement field: pieces as letters, runs of empty squares merged into one digit, '/' between ranks, ranks 8 to 1",
-          functions=["<Fen as IntoNotation<State>>::into_notation (body, extracted)"], timeout=3000, heavy=True, tier="experimental", unwindset_rules=WRITER_LOOPS)
+          functions=["<Fen as IntoNotation<State>>::into_notation (body, extracted)"], timeout=3000, heavy=True, tier=("quick" if r in (1, 8) else "thorough"), unwindset_rules=WRITER_LOOPS)
         for r in range(1, 9)
     ] + [
         K("c11w", "c11_writer_placement_ranks_%s" % r, kind="bounded", bound="two adjacent ranks fully symbolic, the other six empty",
           desc="the FEN WRITER's placement field across a rank boundary (the run of empty squares is not carried over)",
-          functions=["<Fen as IntoNotation<State>>::into_notation (body, extracted)"], timeout=5400, heavy=True, tier="experimental", unwindset_rules=WRITER_LOOPS)
+          functions=["<Fen as IntoNotation<State>>::into_notation (body, extracted)"], timeout=5400, heavy=True, tier="thorough", unwindset_rules=WRITER_LOOPS)
         for r in ["1_2", "4_5", "7_8"]
     ] + [
         K("c11", "c11_castling_field_write_and_read_back", tier="experimental", desc="both sides, all 16 castling sets: the writer emits exactly the canonical line "
@@ -626,20 +626,20 @@ PROPS["C11"] = dict(
                  "usize Display / str::parse round-trip for the two counters (std); the obligations fix the clocks to 0 and 1",
                  "equality of legal moves, hash and evaluation after a round trip follows from equality of the five state components "
                  "(those functions read nothing else)"],
-    not_claimed=["the FEN WRITER as a symbolic obligation. Two routes were built and neither finishes here: (1) through core::fmt (about 40 write! calls through "
-                 "function-pointer dispatch): 90 minutes / 12 GB; (2) the writer's body extracted verbatim with write! bound to a byte sink (kani/c11_writer.rs, "
-                 "obligations c11_writer_*, tier experimental): core::fmt is gone, but the writer starts with ArrayMap::from(&Board), i.e. Board::piece_at on all 64 "
-                 "squares (the pattern that never finished in section 3), and exhausts 12 GB after 11-20 minutes even with per-loop unwinding bounds and a concrete "
-                 "two-king board. The writer is covered by the native exhaustive stand-in over the finite non-placement domain and by the Display obligations "
-                 "for Square and PieceIndex",
+    not_claimed=["the FEN writer through core::fmt itself (about 40 write! calls through function-pointer dispatch: 90 minutes / 12 GB): the writer's body is "
+                 "proved with write! bound to a byte sink instead (kani/c11_writer.rs); the clocks' decimal text is std's (kept abstract)",
+                 "the writer's placement field with more than two symbolic ranks at once (one rank at a time: quick ranks 1 and 8, thorough all eight and three "
+                 "pairs of adjacent ranks)",
                  "cross-rank interaction of the parser's u8 cursor beyond one symbolic rank"],
-    technique="Kani/CBMC: FEN writer through core::fmt against a byte-level spec, and the field parsers as its inverse",
+    technique="Kani/CBMC: FEN reader tail and FEN writer body (both extracted verbatim) against a byte-level spec of the canonical text; field parsers as inverses",
     level_text="Proof for the READER: the function tail after the regex gate (extracted verbatim every run) returns exactly the spelled "
                "side, castling set (all 16), en-passant square (all 64 or none) and clocks (000..999); the castling-field parser "
-               "inverts the canonical spelling; Square text round-trips. The writer and the regex gate are covered by a native "
-               "exhaustive stand-in over the finite non-placement domain; the placement parser one symbolic rank at a time (thorough).",
-    level_note="Regex gate assumed in the proof obligations (exercised natively in the stand-in). The FEN writer is not proved "
-               "(symbolic execution through core::fmt does not finish); placement: parser only, one rank at a time.",
+               "inverts the canonical spelling; Square text round-trips. Proof for the WRITER: its whole body (extracted verbatim, write! bound to a "
+               "byte sink, the mailbox conversion and the Display impls it calls bound to their separately proved contracts) writes the canonical line "
+               "byte for byte for every side, castling set, en-passant target and clock pair, and the canonical placement text one fully symbolic rank "
+               "at a time. The regex gate and the text of the decimal counters are std/external: covered by the native exhaustive stand-in.",
+    level_note="Regex gate assumed in the proof obligations (exercised natively in the stand-in). The writer is proved against a byte sink, not through "
+               "core::fmt's Formatter (whose flags it does not use); placement: one symbolic rank at a time in both directions.",
 )
 
 PROPS["C10"] = dict(
